@@ -5,7 +5,9 @@ Spec (from the property statement): gamma(AT_MOST_ONE)=[0,1], gamma(ONE)=[1,1], 
 gamma(AT_LEAST_ONE)=[1,inf) over natural result sizes.  A rule is sound iff for all sizes n_i in
 gamma(c_i) the size produced by the construct's set semantics lies in gamma(rule(c...)).
 """
+import ast
 from pyvc.engine import World
+from pyvc import repo
 
 CARD = 'edb/edgeql/compiler/inference/cardinality.py'
 QLT = 'edb/edgeql/qltypes.py'
@@ -221,6 +223,38 @@ def build_disjointness(w):
                           'len(new_els) == i', 'forall(0, i, lambda k: ' + RULE % ('new_els', 'new_els') + ')'])},
         hints={'var_types': {'new_els': 'Seq[MI]'}, 'ext_funcs': {'infer_multiplicity': T_MULT, 'cardinality.infer_cardinality': T_CARD}})
 
+def build_pointer_card(w):
+    """cardinality._infer_pointer_cardinality: the cardinality recorded for a computed pointer / a shape assignment (it is written into the schema and into the
+    pointer reference, and decides `required` / `single` of the result descriptor) contains the actual size of the assigned expression.
+    g_card: the value of the local `ptr_card` as computed from the expression and the explicit specifier (before the merge with an overloaded pointer)."""
+    w.enum('ShapeOp', 'edb/edgeql/ast.py', 'ShapeOp')
+    w.contract(QLT, 'SchemaCardinality.is_known', params={'self': 'SCard'}, returns='bool', pure=True, ensures=['result == (self != SCard.Unknown)'])
+    w.refclass('PtrC', {}); w.refclass('PEnv', {'schema': 'Obj', 'pointer_specified_info': 'Obj'}); w.refclass('PCtx', {'env': 'PEnv', 'make_updates': 'bool'})
+    w.ufunc('PSC', ['PtrC', 'Obj'], 'SCard')
+    w.ext_methods['PtrC.get_cardinality'] = dict(params={'schema': 'Obj'}, returns='SCard', returns_expr='PSC(self, schema)', modifies=[])
+    w.ext_methods['PtrC.get_verbosename'] = dict(params={'schema': 'Obj'}, returns='str', modifies=[])
+    IHP = dict(params={'ir': 'IrB'}, optional=('scope_tree', 'ctx'), returns='Card', ensures=['known(result)', 'SZ(ir) >= 0', 'in_gamma(SZ(ir), result)'], raises={'QueryError': {}}, modifies=[])
+    ASSIGN = '(shape_op != ShapeOp.APPEND and shape_op != ShapeOp.SUBTRACT)'
+    w.contract(CARD, '_infer_pointer_cardinality',
+        params={'ptrcls': 'PtrC', 'ptrref': 'Opt[Obj]', 'irexpr': 'IrB', 'specified_required': 'Opt[bool]', 'specified_card': 'Opt[SCard]', 'is_mut_assignment': 'bool',
+                'shape_op': 'ShapeOp', 'source_ctx': 'Opt[Obj]', 'scope_tree': 'Obj', 'ctx': 'PCtx'},
+        ghost={'g_card': 'Card'}, returns='none',
+        requires=['implies(specified_card is not None, specified_card != SCard.Unknown)'],
+        modifies=['PEnv.schema', '$alloc'],
+        ghost_after={'ptr_card = inferred_card': [('g_card', 'ptr_card')], 'ptr_card = _bounds_to_card(lower_bound, upper_bound)': [('g_card', 'ptr_card')]},
+        ensures=['known(g_card)',
+                 # `required` is recorded only when the expression cannot be empty (for mutations the explicit `required` is left to the run-time check and NOT recorded)
+                 'implies(%s, SZ(irexpr) >= lo(g_card))' % ASSIGN,
+                 # `single` is recorded only when the expression yields at most one element (or the pointer is already known to be single in the schema)
+                 'implies(%s and old(PSC(ptrcls, ctx.env.schema)) == SCard.Unknown and bounded(g_card), SZ(irexpr) <= 1)' % ASSIGN,
+                 # an explicit specifier is obeyed
+                 'implies(specified_card is not None and specified_card == SCard.One, bounded(g_card))',
+                 'implies(specified_required is not None and specified_required and not is_mut_assignment, lo(g_card) == 1)'],
+        raises={'QueryError': {}},
+        abstract={'if not ptrcls_schema_card.is_known() or ptrcls in ctx.env.pointer_specified_info:': dict(assigns={'ptr_card': 'Card'}, modifies=['PEnv.schema', '$alloc']),
+                  'if ptrref and ctx.make_updates:': dict(assigns={}, modifies=['$alloc'])},
+        hints={'ext_funcs': {'infer_cardinality': IHP}, 'ghost_out': ['g_card']})
+
 def build_funccall(w):
     """cardinality.__infer_func_call, functions that preserve the optionality / upper cardinality of their SET OF argument (assert_exists, assert_distinct, ...):
     an argument bound to an OPTIONAL (element-wise) parameter makes the call run once per element, so if such an argument may have more than one element the call may too --
@@ -428,6 +462,7 @@ def build():
                           'sumn(ns, i) >= 0', 'sumn(ns, 0) == 0', 'implies(int(acc) < 2, sumn(ns, i) <= int(acc))'])})
 
     build_ir_rules(w)
+    build_pointer_card(w)
     build_disjointness(w)
     build_funccall(w)
     build_constset(w)
@@ -454,3 +489,47 @@ def scenarios(tier, seed, repo_root, outdir):
     return dict(evaluations=r['cases'], failure=r['failure'],
                 label='tuple constructor rule on all tuples of <= %d elements over 5 concrete multisets x exact / loose cardinalities (bounded)' % nmax,
                 clause='per-element and own multiplicity of a tuple set bound the duplicates of its projections / of the tuples')
+
+
+def extra_obligations(w, tier, seed):
+    """AST obligations that back assumed blocks of the contracts above."""
+    out = []
+    def ob(oid, clause, ok, where, undecided=False):
+        return dict(id=oid, kind='shape', clause=clause, tag='property', paths=1, status='discharged' if ok else ('unknown' if undecided else 'failed'), backend='ast-scan', seconds=0.0,
+                    model=None if ok else {'offending_source_location': where}, where=where, function='ast-scan')
+    # __infer_oper_call, UNION of object sets: the block that computes `types_disjoint` is assumed in the contract with  types_disjoint ==> TD(ir)
+    #   (no object can be in two operands).  With multiple inheritance two types neither of which is a subtype of the other still share objects (a common descendant),
+    #   so the test has to be made on the WHOLE lineages: every operand type together with all its descendants, no type twice in the concatenation.
+    fn, _ = repo.find_def('edb/edgeql/compiler/inference/multiplicity.py', '__infer_oper_call')
+    blocks = [n for n in ast.walk(fn) if isinstance(n, ast.If) and ast.unparse(n.test) == 'isinstance(arg_type, s_objtypes.ObjectType)']
+    st = None; where = 'block `if isinstance(arg_type, s_objtypes.ObjectType):` not found'
+    if len(blocks) == 1:
+        b = blocks[0]
+        defs = {}
+        for n in b.body:
+            if isinstance(n, (ast.Assign, ast.AnnAssign)) and n.value is not None:
+                t = n.targets[0] if isinstance(n, ast.Assign) else n.target
+                if isinstance(t, ast.Name): defs.setdefault(t.id, []).append(n.value)
+        td = defs.get('types_disjoint', [])
+        els = [n for n in b.orelse if isinstance(n, ast.Assign) and ast.unparse(n.targets[0]) == 'types_disjoint']
+        if len(td) == 1 and len(els) == 1:
+            # transitive closure of the expressions the flag is computed from (inside the block)
+            seen = set(); work = [td[0]]; exprs = []
+            while work:
+                e = work.pop(); exprs.append(e)
+                for x in ast.walk(e):
+                    if isinstance(x, ast.Name) and x.id in defs and x.id not in seen:
+                        seen.add(x.id); work.extend(defs[x.id])
+            txt = ' ;; '.join(ast.unparse(e) for e in exprs)
+            uses_desc = any(isinstance(x, ast.Call) and isinstance(x.func, ast.Attribute) and x.func.attr == 'descendants' for e in exprs for x in ast.walk(e))
+            canonical = (ast.unparse(td[0]) == 'len(flattened) == len(frozenset(flattened))' and 'flattened' in defs and 'lineages' in defs
+                         and ast.unparse(defs['flattened'][0]) == 'tuple(itertools.chain.from_iterable(lineages))'
+                         and ast.unparse(defs['lineages'][0]) == '[(t,) + tuple(t.descendants(ctx.env.schema)) for t in types]')
+            else_false = isinstance(els[0].value, ast.Constant) and els[0].value.value is False
+            where = 'line %d: types_disjoint = %s' % (b.lineno, ast.unparse(td[0])[:120])
+            if canonical and else_false: st = True
+            elif not uses_desc: st = False; where += ' (the descendants of the operand types are not consulted)'
+            elif not else_false: st = False; where += ' (non-object operands: %s)' % ast.unparse(els[0].value)
+    out.append(ob('scan/__infer_oper_call/types-disjoint-by-lineage', 'multiplicity.__infer_oper_call (UNION): types_disjoint is True only when no type occurs twice among the operand types '
+                  'and all their descendants (and False for non-object operands); this backs the assumed block  types_disjoint ==> TD(ir)', st is True, where, undecided=st is None))
+    return out
